@@ -61,6 +61,9 @@ TECHNIQUE = ('Coq proof on regenerated terms (cbv + field; Vec/Vec3.v algebra: a
              'failing steps re-run alone in a fresh process)')
 
 LUNITS = ['m', 'mm']
+# a beam is a vector whose LENGTH does not matter: it may also be handed over as a plain direction vector without a unit
+# (a NeXus 'direction', a detector position divided by a length scale) of ANY norm - not only of norm 1
+BEAM_UNITS = ['m', 'mm', 'dimensionless']
 WUNITS = [('angstrom', 1e-10), ('nm', 1e-9)]
 # integer quadruples with a perfect-square norm: exact rational unit quaternions
 QUADS = [(1, 2, 2, 4), (2, 3, 6, 0), (1, 4, 8, 0), (2, 1, 2, 0), (1, 1, 1, 1), (3, 4, 12, 0), (1, 2, 4, 10), (0, 1, 0, 0),
@@ -273,8 +276,8 @@ def gen_groups(rng, n, npix=5):
         Um, _ = rot_spec(rng, rng.choice([None, None, None, None, 'p']), npix)     # one U per pixel: 1 group in 5
         g = {'id': i,
              'wavelength': {'values': wvals, 'unit': wu[0], 'dtype': wdt, 'dim': wdim},
-             'incident_beam': vop([bi], rng.choice(LUNITS), None),
-             'scattered_beam': vop(bfs, rng.choice(LUNITS), 'p'),
+             'incident_beam': vop([bi], rng.choice(BEAM_UNITS), None),
+             'scattered_beam': vop(bfs, rng.choice(BEAM_UNITS), 'p'),
              'R': R, 'U': Um}
         g.update(b_spec(b_array(rng, npix) if rng.random() < 0.2 else [b_matrix(rng)], '1/angstrom'))   # one B per pixel: 1 in 5
         if rng.random() < 0.25:    # hkl of arbitrary Q vectors rather than of the computed ones
@@ -329,7 +332,7 @@ def class_counts(groups):
 # with a stale value, which the property statement evaluated on EVERY step exposes.
 BUNITS = ['dimensionless', '1/angstrom', '1/nm']
 QUNITS = ['1/angstrom', '1/nm']
-HIST_AXES = [('B_unit', 5), ('w_unit', 4), ('w_dtype', 3), ('w_dim', 1), ('bi_unit', 1), ('bf_unit', 1), ('npix', 1),
+HIST_AXES = [('B_unit', 5), ('w_unit', 4), ('w_dtype', 3), ('w_dim', 1), ('bi_unit', 2), ('bf_unit', 2), ('npix', 1),
              ('R_kind', 1), ('R_dim', 1), ('U_kind', 1), ('U_dim', 1), ('B_dim', 1), ('Q_unit', 3), ('Q_src', 2)]
 HIST_ID0 = 1000
 
@@ -360,7 +363,7 @@ def hist_base(rng, npix=3):
 
 def hist_choices(base):
     return {'B_unit': BUNITS, 'w_unit': [w for w, _ in WUNITS], 'w_dtype': base['dtypes'], 'w_dim': [None, 'p'],
-            'bi_unit': LUNITS, 'bf_unit': LUNITS, 'npix': [base['npix'] - 1, base['npix']], 'R_kind': ['quat', 'matrix'],
+            'bi_unit': BEAM_UNITS, 'bf_unit': BEAM_UNITS, 'npix': [base['npix'] - 1, base['npix']], 'R_kind': ['quat', 'matrix'],
             'R_dim': [None, 'p'], 'U_kind': ['quat', 'matrix'], 'U_dim': [None, 'p'], 'B_dim': [None, 'p'], 'Q_unit': QUNITS, 'Q_src': ['computed', 'explicit']}
 
 
@@ -745,18 +748,19 @@ def invariance_checks(ctx, rng, n, found):
         k1, k2 = rng.choice([2.0 ** rng.randint(-20, 20), 3.0]), rng.choice([2.0 ** rng.randint(-20, 20), 0.1])
         fv = lambda op: [[float.fromhex(c) for c in v] for v in op['values']]  # noqa: E731
         bi, bf = fv(g['incident_beam']), fv(g['scattered_beam'])
+        # the rescaled beams also come in another unit (incl. none at all): same direction, another length
         gs = dict(g, id=f'{g["id"]}:scale',
-                  incident_beam=vop([[c * k1 for c in v] for v in bi], g['incident_beam']['unit'], None),
-                  scattered_beam=vop([[c * k2 for c in v] for v in bf], rng.choice(LUNITS), 'p'))
+                  incident_beam=vop([[c * k1 for c in v] for v in bi], rng.choice(BEAM_UNITS), None),
+                  scattered_beam=vop([[c * k2 for c in v] for v in bf], rng.choice(BEAM_UNITS), 'p'))
         rot = lambda v: [sum(M[3 * i + t] * v[t] for t in range(3)) for i in range(3)]  # noqa: E731
         gr = dict(g, id=f'{g["id"]}:rot', incident_beam=vop([rot(v) for v in bi], g['incident_beam']['unit'], None),
                   scattered_beam=vop([rot(v) for v in bf], g['scattered_beam']['unit'], 'p'))
         req += [dict(g, id=f'{g["id"]}:base'), gs, gr]
-        meta.append((g, M, (k1, k2)))
+        meta.append((g, M, (k1, k2), gs))
     res = ctx.run_impl('c08_impl.py', {'groups': req})
     by = {r['id']: r for r in res['groups']}
     n_checks = 0
-    for g, M, ks in meta:
+    for g, M, ks, gs in meta:
         b, s, ro = by[f'{g["id"]}:base'], by[f'{g["id"]}:scale'], by[f'{g["id"]}:rot']
         if not (ok(b, 'Qvec') and ok(s, 'Qvec') and ok(ro, 'Qvec')):
             d = {'group': g['id'], 'errors': {k: v.get('Qvec') for k, v in (('base', b), ('scale', s), ('rot', ro))}}
@@ -773,9 +777,13 @@ def invariance_checks(ctx, rng, n, found):
                 continue
             n_checks += 2
             if any(abs(x - y) > 4e-15 * kk for x, y in zip(qb, qsc)):
+                un = lambda r_: [r_['operands'][n_]['unit']['name'] for n_ in ('incident_beam', 'scattered_beam')]  # noqa: E731
                 d = {'check': 'beam-length independence', 'base': qb, 'rescaled': qsc, 'k': ks, 'group': g['id'], 'pixel': k,
-                     'operands': {n_: b['operands'][n_] for n_ in ('incident_beam', 'scattered_beam', 'wavelength')}}
-                ctx.violation('Qvec:scale-dependence', f'Q vector changes when the beams are rescaled by {ks}: {qb} vs {qsc}', {'case': d})
+                     'beam_units': un(b), 'rescaled_beam_units': un(s),
+                     'operands': {n_: b['operands'][n_] for n_ in ('incident_beam', 'scattered_beam', 'wavelength')},
+                     'rescaled_operands': {n_: s['operands'][n_] for n_ in ('incident_beam', 'scattered_beam')}}
+                ctx.violation('Qvec:scale-dependence', f'Q vector changes when the beams (units {un(b)}) are rescaled by {ks} and given in '
+                              f'units {un(s)}: {qb} vs {qsc}', {'case': d, 'group': gs, 'base_group': dict(g, id=f'{g["id"]}:base')})
                 found.append(d)
             mq = [sum(M[3 * i + t] * qb[t] for t in range(3)) for i in range(3)]
             if any(abs(x - y) > 2e-14 * kk for x, y in zip(mq, qr)):
@@ -894,6 +902,150 @@ def history_checks(ctx, executed, res_groups, by_hist, found):
     return n_steps
 
 
+# ------------------------------------------------------------------ SIZE axis: long operands
+# The property quantifies over scalar AND array operands; an implementation may choose its algorithm by the number of
+# elements (the comment block of hkl_vec_from_Q_vec discusses three of them): the statement must hold whatever the size.
+# The long operands (wavelengths, scattered beams, explicit Q) are drawn inside tools/harness/c08_large.py from a numpy seed;
+# R, U, B come from here: R and U GENERIC rotations (all four quaternion components non-zero: they commute with nothing in
+# sight), B dense or triangular of either handedness with condition number <= 1e3.  The statement is evaluated on the whole
+# arrays in numpy (ranking) and HERE, with exact rational arithmetic, on sampled elements (first, last, middle, the elements
+# around index 2^16, random ones) and on the worst element of every relation.
+LARGE_QUICK = [[4097], [65535], [65536], [65537], [2 ** 17 + 1], [300, 400]]
+LARGE_MORE = ([[2 ** k + d] for k in range(8, 17) for d in (-1, 0, 1) if (k, d) not in ((16, -1), (16, 0), (16, 1))]
+              + [[10 ** 5 + 1], [2 ** 18 + 1], [2 ** 20 + 1], [10 ** 6], [257, 257], [3, 50000], [1000, 70], [70, 1000]])
+LARGE_KAPPAS = [1.0, 3.0, 10.0, 1e2, 1e3]
+
+
+def generic_quat(rng):
+    while True:
+        qt = rand_quat(rng)
+        if all(c != 0 for c in qt) and len({abs(c) for c in qt}) > 1:
+            return qt
+
+
+def gen_large(rng, shapes, id0=0, graph_every=3):
+    cases = []
+    for i, shape in enumerate(shapes):
+        two_d = len(shape) == 2
+        dims = ['pixel', 'wavelength'] if two_d else ['p']
+        n = 1
+        for m_ in shape:
+            n *= m_
+        u = rand_unit(rng)
+        wu = rng.choice(WUNITS)[0]
+        wdims = rng.choice([['wavelength'], ['pixel', 'wavelength']]) if two_d else rng.choice([['p'], ['p'], ['p'], []])
+        M, kap, cls = b_matrix(rng, kap=rng.choice(LARGE_KAPPAS))
+        rdim = rng.choice([None, None, None, dims[0]])
+        c = {'id': f'large{id0 + i}', 'dims': dims, 'shape': list(shape), 'seed': rng.randrange(2 ** 31),
+             'wavelength': {'unit': wu, 'dtype': rng.choice(['float64', 'float64', 'float64', 'float32', 'int64']), 'dims': wdims},
+             'incident_beam': {'value': [hexf(c_ * loguniform(rng, 1e-3, 1e3)) for c_ in u], 'unit': rng.choice(BEAM_UNITS)},
+             'scattered_beam': {'unit': rng.choice(BEAM_UNITS), 'dims': [dims[0]]},
+             'R': rot_of([generic_quat(rng) for _ in range(5 if rdim else 1)], rng.choice(['quat', 'quat', 'matrix']), rdim),
+             'U': rot_of([generic_quat(rng)], rng.choice(['quat', 'matrix']), None),
+             'B': {'values': [hexf(x) for x in M], 'unit': rng.choice(BUNITS)}, 'B_class': [cls], 'kappa_target': kap,
+             'Q': None, 'graph': rng.choice(['wavelength', 'tof']) if i % graph_every == graph_every - 1 else None}
+        if rng.random() < 1 / 3:         # hkl of arbitrary Q vectors (2-d: sometimes stored in the other dim order)
+            c['Q'] = {'unit': rng.choice(QUNITS), 'order': dims[::-1] if two_d and rng.random() < 0.5 else dims}
+        fixed = [0, 1, n // 2, n - 2, n - 1, 2 ** 16 - 1, 2 ** 16, 2 ** 16 + 1]
+        c['samples'] = sorted({j for j in fixed if 0 <= j < n} | {rng.randrange(n) for _ in range(6)})
+        cases.append(c)
+    return cases
+
+
+def large_checks(ctx, cases, found):
+    """the statement on long operands (kernels and, for some cases, the graph entry points); one report per failing relation
+    carrying the first failing case (replayable spec) and the shapes on which the relation failed / held in this run"""
+    if not cases:
+        return {}
+    res = ctx.run_impl('c08_large.py', {'cases': cases})
+    fails, holds = {}, {}
+    n_elem = n_exact = n_graph = 0
+
+    def flag(key, what, obj, c):
+        fails.setdefault(key, []).append((c, what, obj))
+
+    for c, r in zip(cases, res['cases']):
+        if 'build_error' in r:
+            ctx.note(f'harness could not build large case {c["id"]}: {r["build_error"]}')
+            continue
+        n = 1
+        for m_ in c['shape']:
+            n *= m_
+        n_elem += n
+        g = {'id': c['id'], 'large': c, 'B_class': c['B_class'], 'kappa_target': c['kappa_target']}
+        if not r.get('inputs_unchanged', True):
+            ctx.note(f'large case {c["id"]}: an operand was modified by a call (C09 covers this)')
+        for route, rr in (('', r), ('graph:', r.get('graph'))):
+            if not isinstance(rr, dict):
+                continue
+            n_graph += route != ''
+            where = {'case': c['id'], 'shape': c['shape'], 'elements': n, 'through': 'graph entry points' if route else 'kernels'}
+            summ = rr.get('summary') or {}
+            for k in ('error', 'sampled_error'):
+                if k in rr:
+                    flag(route + 'large-array:results-not-evaluable', f'the results on operands of shape {c["shape"]} have a form the statement '
+                         f'cannot be evaluated on: {rr[k]}', {'case': dict(where, error=rr[k]), 'group': g}, c)
+            if 'summary_error' in summ:
+                flag(route + 'large-array:results-not-evaluable', f'the results on operands of shape {c["shape"]} have a form the statement '
+                     f'cannot be evaluated on: {summ["summary_error"]}', {'case': dict(where, error=summ['summary_error']), 'group': g}, c)
+            for k in ('Qvec_shape', 'hkl_shape'):
+                if k in summ:
+                    flag(route + 'large-array:result-shape', f'{k[:-6]} does not have the dims of its operands: {summ[k]} ({where})',
+                         {'case': dict(where, observed=summ[k]), 'group': g}, c)
+            for k in ('Qvec_nonfinite', 'hkl_nonfinite'):
+                if (summ.get(k) or {}).get('n'):
+                    flag(route + 'large-array:non-finite', f'{summ[k]["n"]} of {n} elements of {k[:-10]} are not finite on finite operands, first at '
+                         f'flat index {summ[k]["flat_index"]} ({where})', {'case': dict(where, observed=summ[k]), 'group': g}, c)
+            for k in ('Qel_join_mismatch', 'split_mismatch', 'rejoin_mismatch'):
+                if summ.get(k):
+                    flag(route + 'large-array:split-join-lossy', f'{k}: {summ[k]} components differ between the vector and its components ({where})',
+                         {'case': dict(where, relation=k, mismatches=summ[k]), 'group': g}, c)
+            smp = rr.get('sampled')
+            if not isinstance(smp, dict):
+                continue
+            n_exact += len(smp.get('flat_index') or [])
+            col, f = _Collect(), []
+            statement_checks(col, [g], {'groups': [smp]}, f)
+            bad = set()
+            for (key, what, obj), d in zip(col.items, f):
+                whole = {k: summ.get(k) for k in ('Qvec_definition', 'Qvec_norm_vs_scalar_Q', 'hkl_residual', 'kappa_inf_max') if k in summ}
+                fi = smp['flat_index']
+                at = fi[d['pixel']] if isinstance(d.get('pixel'), int) and d['pixel'] < len(fi) else None
+                obj = dict(obj, case=dict(obj.get('case') or {}, **where, flat_indices_evaluated_exactly=fi, flat_index=at, whole_array_numpy=whole))
+                # the known conditioning finding keeps its own key; everything else is a matter of the SIZE axis
+                k2 = key if key.endswith('-kappa>=1e4') else route + 'large-array:' + key
+                bad.add(k2)
+                flag(k2, what + f' [operands of shape {c["shape"]} = {n} elements, through the {where["through"]}; whole array in numpy: {whole}]', obj, c)
+            for k2 in ('Qvec:definition', 'Qvec:norm-vs-scalar-Q', 'hkl_vec_from_Q_vec:residual'):
+                if route + 'large-array:' + k2 not in bad:
+                    holds.setdefault(route + 'large-array:' + k2, []).append(c['shape'])
+    for key, items in fails.items():
+        c, what, obj = items[0]
+        shapes_bad = [c_['shape'] for c_, _, _ in items]
+        uniq = []
+        for s_ in shapes_bad:
+            if s_ not in uniq:
+                uniq.append(s_)
+        ok_ = [s_ for s_ in holds.get(key, []) if s_ not in uniq]
+        txt = f'{what} -- fails for operand shapes {uniq[:12]}' + (f', holds in this run for shapes {ok_[:12]}: the result depends on the '
+                                                                   f'number of elements' if ok_ else '')
+        ctx.violation(key, txt, dict(obj, shapes_failing=uniq, shapes_holding=ok_))
+        found.append(obj.get('case'))
+    return {'cases': len(cases), 'shapes': [c['shape'] for c in cases], 'elements_total': n_elem, 'elements_evaluated_exactly': n_exact,
+            'cases_also_through_graph': n_graph, 'explicit_Q': sum(1 for c in cases if c['Q']),
+            'R_per_pixel': sum(1 for c in cases if c['R'].get('dim')),
+            'beam_units': sorted({(c['incident_beam']['unit'], c['scattered_beam']['unit']) for c in cases}),
+            'numpy': res.get('numpy')}
+
+
+def beam_unit_counts(groups):
+    out = {}
+    for g in groups:
+        k = f'{g["incident_beam"]["unit"]}/{g["scattered_beam"]["unit"]}'
+        out[k] = out.get(k, 0) + 1
+    return dict(sorted(out.items()))
+
+
 HEADER = ('From Coq Require Import QArith ZArith String List.\n'
           'From Verif.Sem Require Import Field Val QInst Corr.\nFrom Run Require Import Corr.\n'
           'Import ListNotations.\nOpen Scope string_scope.\n'
@@ -951,6 +1103,8 @@ def correspondence(ctx):
     found = []
     n_hist_steps = history_checks(ctx, groups + order, all_res, by_hist, found)
     n_inv = invariance_checks(ctx, rng, 8 if quick else 120, found)
+    # SIZE axis (statement only, no Coq cases): independent generator state
+    large = large_checks(ctx, gen_large(random.Random(ctx.seed * 15485863 + 29), LARGE_QUICK if quick else LARGE_QUICK + LARGE_MORE), found)
     if mutated:
         ctx.note(f'{mutated} groups had an operand modified by a call (C09 covers this)')
     kinds = {}
@@ -965,7 +1119,7 @@ def correspondence(ctx):
         'evaluations': len(terms) + n_inv,
         'distinct_nontrivial': len({repr(sorted((k, repr(v)) for k, v in d.items() if k != 'impl')) for d in descs if not isinstance(d['impl'], str)}),
         'rule': 'per group: wavelength 0.01..100 angstrom (angstrom/nm; float64/float32/int64; scalar or per-pixel), incident beam scalar, 5 scattered '
-                'beams per pixel at uniform and near-degenerate angles ({0,pi/2,pi} +- {0,1e-12..1e-3}), beams in m/mm with lengths 1e-3..1e3; '
+                'beams per pixel at uniform and near-degenerate angles ({0,pi/2,pi} +- {0,1e-12..1e-3}), beams in m / mm / DIMENSIONLESS (plain direction vectors of any norm; the two beams independently) with lengths 1e-3..1e3; '
                 'R and U from exact rational unit quaternions (as rotation3 or as 3x3 linear_transform; R scalar or per-pixel), '
                 'U 0-d or (1 in 5) one per pixel; B of EITHER handedness, condition numbers 1..1e6, in 1/angstrom: kind diag*(I+N) / Busing-Levy B of a '
                 'triclinic cell (angles 60..120 deg) / dense O1*diag*O2, then as made / columns cyclically permuted (det > 0) or two columns '
@@ -984,6 +1138,15 @@ def correspondence(ctx):
                 'group is re-run alone and after its predecessors in fresh processes',
         'samples': descs[:2] + descs[n_plain // 2:n_plain // 2 + 2] + descs[n_plain:n_plain + 1] + descs[-1:],
         'per_kernel': kinds, 'kappa_targets': kaps, 'invariance_checks': n_inv,
+        'beam_units_incident/scattered': beam_unit_counts(groups + order),
+        'large_arrays': dict(large, rule='SIZE axis: operands of 4097, 65535, 65536, 65537, 2^17+1 and 300 x 400 elements (thorough and search: '
+                             '2^k-1, 2^k, 2^k+1 for k = 8..16, 1e5+1, 2^18+1, 2^20+1, 1e6, 257x257, 3x50000, 1000x70, 70x1000): wavelengths '
+                             '(per element, per wavelength bin, or 0-d; float64/float32/int64), scattered beams per pixel and explicit Q drawn in '
+                             'the harness from a numpy seed, beams in m / mm / dimensionless, R and U generic rotations (no zero quaternion '
+                             'component; R 0-d or tiled per pixel), B of either handedness with kappa <= 1e3 in any of three units; 1 case in 3 also '
+                             'through graph.tof.elastic_Q_vec / elastic_hkl + transform_coords; the statement is evaluated on the whole arrays '
+                             'in numpy float64 (ranking, non-finite, exact split/join) and with exact rationals on >= 9 sampled elements per case '
+                             '(ends, middle, around 2^16, random) plus the worst element of every relation; no Coq cases'),
         'B_matrices': dict(class_counts(groups + order), kinds=B_KINDS, hands=B_HANDS,
                            sweep_groups=sum(1 for g in groups if g.get('sweep'))),
         'graph_entry_points': {'groups': sum(1 for r in all_res if isinstance(r.get('graph'), dict)),
@@ -1009,7 +1172,11 @@ def search(ctx, broken):
     add_graph_specs(groups + order, rng)
     res = ctx.run_impl('c08_impl.py', {'groups': groups + order})
     history_checks(ctx, groups + order, res['groups'], by_hist, found)
-    invariance_checks(ctx, rng, 8, found)
+    invariance_checks(ctx, rng, 24, found)
+    # SIZE axis: a changed / never executed statement may sit behind a size test - many sizes around powers of two and of ten,
+    # 1-d and 2-d, twice with independent operands
+    for rep in range(2):
+        large_checks(ctx, gen_large(rng, LARGE_QUICK + LARGE_MORE, id0=1000 * rep), found)
     return found
 
 
@@ -1044,8 +1211,38 @@ def replay(ctx, obj):
             alone = ctx.run_impl('c08_impl.py', {'groups': [seq[-1]]})
             print('last step alone in a fresh process:', sorted(keys_of([seq[-1]], alone)) or 'satisfies the property')
         return 0
+    if rp.get('group') and rp['group'].get('large'):
+        c = rp['group']['large']
+        print(f'large operands: shape {c["shape"]} (dims {c["dims"]}), numpy seed {c["seed"]}, beams in {c["incident_beam"]["unit"]} / '
+              f'{c["scattered_beam"]["unit"]}, R {c["R"]["kind"]} dim {c["R"].get("dim")}, explicit Q {c["Q"]}, graph {c["graph"]}')
+        found = []
+
+        class PL:
+            @staticmethod
+            def violation(key, what, replay_obj, found_input=True):
+                print('STILL VIOLATED:', key, '::', what[:600])
+
+            @staticmethod
+            def run_impl(script, payload):
+                return ctx.run_impl(script, payload)
+
+            @staticmethod
+            def note(text):
+                print('note:', text)
+        cov = large_checks(PL, [c], found)
+        print('evaluated:', {k: cov.get(k) for k in ('elements_total', 'elements_evaluated_exactly', 'cases_also_through_graph')})
+        if not found:
+            print('the defining relations hold on these operands (whole array in numpy, sampled and worst elements exactly)')
+        return 0
     if rp.get('group'):
         g = rp['group']
+        if rp.get('base_group'):      # beam-length independence: the base group and the rescaled one
+            g = dict(g, id=1)
+            both = ctx.run_impl('c08_impl.py', {'groups': [dict(rp['base_group'], id=0), g]})['groups']
+            for name, r_ in zip(('base', 'rescaled'), both):
+                v = r_.get('Qvec', {})
+                print(name, 'beams in', [r_['operands'][n_]['unit']['name'] for n_ in ('incident_beam', 'scattered_beam')], 'Q_vec[0] ->',
+                      'raises ' + v['error'] if 'error' in v else kcorr.fmt(v['values'][0]))
     elif 'scattered_beam' in case and isinstance(case.get('wavelength'), dict):
         w = case['wavelength']
         rot = lambda v: {'kind': 'quat' if len(v) == 4 else 'matrix', 'values': [[hexf(c) for c in v]], 'dim': None}  # noqa: E731
